@@ -270,7 +270,7 @@ class H2Protocol:
                     )
                 else:
                     await self._create_stream(event)
-                    await self.send(Updated(idle=False))
+                    await self.send(Updated(idle=self.idle))
 
                 if self.keep_alive_requests > self.config.keep_alive_max_requests:
                     self.connection.close_connection()
@@ -352,6 +352,11 @@ class H2Protocol:
                 method = value.decode("ascii").upper()
             elif name == b":path":
                 raw_path = value
+
+        if not raw_path.isascii():
+            # Malformed request (RFC 9113 8.1.1), affects only this stream
+            self.connection.reset_stream(request.stream_id, h2.errors.ErrorCodes.PROTOCOL_ERROR)
+            return
 
         if method == "CONNECT":
             self.streams[request.stream_id] = WSStream(
